@@ -27,6 +27,24 @@ def respond (line : String) : String :=
       let dt : Date := ⟨d, m, y⟩
       s!"{dt.firstDay - 719163} {dt.lastDay - 719163} {dt.periodDays} {dt.year} {dt.yearsNum} {dt.yearsDen}"
     | _ => "bad-op"
+  | "before" :: rest =>
+    -- before d m y d m y [same] : IsBefore, IsAfter, exact tie
+    match parseNats (rest.take 6) with
+    | some [d1, m1, y1, d2, m2, y2] =>
+      let a : Date := ⟨d1, m1, y1⟩
+      let b : Date := ⟨d2, m2, y2⟩
+      s!"{b2s (a.isBefore b)}{b2s (a.isAfter b)}{b2s (!(a.isBefore b) && !(a.isAfter b))}"
+    | _ => "bad-op"
+  | "minmax" :: rest =>
+    match parseNats rest with
+    | some ns =>
+      let rec triples : List Nat → List Date
+        | d :: m :: y :: more => ⟨d, m, y⟩ :: triples more
+        | _ => []
+      let ds := triples ns
+      let show_ (o : Option Nat) : String := match o with | some i => toString i | none => "-1"
+      s!"{show_ (minimumIdx ds)} {show_ (maximumIdx ds)}"
+    | _ => "bad-op"
   | _ => "bad-op"
 
 end Driver
